@@ -153,13 +153,23 @@ fn batch_main() -> i32 {
     };
     let mut out = Vec::new();
     let empty = vec![];
+    // phase 1: one rewriter per distinct (configuration, PRNG seed), all created before anything is
+    // rewritten - as a process that holds several Rewriter instances does
+    let mut configs: Vec<(String, Result<native_iast_rewriter::verif_hooks::Config, String>)> = Vec::new();
+    for job in v["jobs"].as_array().unwrap_or(&empty) {
+        let key = format!("{}#{}", job["cfg"], job["prng_seed"].as_u64().unwrap_or(1));
+        if !configs.iter().any(|(k, _)| k == &key) {
+            let c = exec::make_config(&job["cfg"], job["prng_seed"].as_u64().unwrap_or(1)).map_err(|o| format!("{:?}", o));
+            configs.push((key, c));
+        }
+    }
     for job in v["jobs"].as_array().unwrap_or(&empty) {
         let fs: fsim::FsSpec = job.get("fs").cloned().and_then(|x| serde_json::from_value(x).ok()).unwrap_or_default();
-        let seed = job["prng_seed"].as_u64().unwrap_or(1);
-        let cfg = match exec::make_config(&job["cfg"], seed) {
+        let key = format!("{}#{}", job["cfg"], job["prng_seed"].as_u64().unwrap_or(1));
+        let cfg = match &configs.iter().find(|(k, _)| k == &key).unwrap().1 {
             Ok(c) => c,
             Err(o) => {
-                out.push(serde_json::json!({"panic": format!("{:?}", o)}));
+                out.push(serde_json::json!({"panic": o}));
                 continue;
             }
         };
@@ -174,7 +184,7 @@ fn batch_main() -> i32 {
         let code = job["code"].as_str().unwrap_or("").to_string();
         let file = job["file"].as_str().unwrap_or("").to_string();
         let r = std::panic::catch_unwind(std::panic::AssertUnwindSafe(|| {
-            native_iast_rewriter::verif_hooks::rewrite_with_reader(&cfg, code, &file, &reader)
+            native_iast_rewriter::verif_hooks::rewrite_with_reader(cfg, code, &file, &reader)
         }));
         match r {
             Ok(Ok(res)) => out.push(serde_json::json!({"ok": serde_json::to_value(&res).unwrap(), "prefix": cfg.local_var_prefix})),
